@@ -383,7 +383,7 @@ func osLinks(r *h.Run) {
 		}
 	}
 	// cancellation from inside the k-th backend operation, every k, on the tree with links
-	for _, name := range []string{"Remove", "RemoveExcl", "RemoveWithPrivileges", "RemoveWithPrivilegesFault1", "RemoveWithPrivilegesFault4", "CleanDir", "Walk", "LsRecursive", "ListDirTree", "Chmod"} {
+	for _, name := range []string{"Remove", "RemoveExcl", "RemoveWithPrivileges", "RemoveWithPrivilegesFault1", "RemoveWithPrivilegesFault4", "RemoveWithPrivilegesLstatFault3", "CleanDir", "Walk", "LsRecursive", "ListDirTree", "Chmod"} {
 		ep := findEP(name)
 		if ep == nil {
 			continue
